@@ -74,10 +74,24 @@ def grpOf (o : Enriched Int) : Option (List Val) :=
   | .kept (some pid) => some [.int (pid % 2)]
   | .kept none => some [.null]
 
-/-- expected result lines of the GROUP BY m.grp, CountingWindow(N) query from the per-row join outputs -/
+/-- model of `… GROUP BY m.grp, CountingWindow(N)` as the code is: `m.grp` is a qualified column, the
+counting window finds no top-level entry of that name and keys every row with the NULL part (one shared
+count buffer, see C09 `windowKey_determines_group_fails`); every batch of N rows then goes through the
+aggregator, which resolves the path and groups by the joined value -/
 def aggLines (n : Nat) (rows : List (List Val × Int)) : List (List String) :=
-  let ems := Counting.run n [] (rows.map fun r => Counting.Op.row (encCounting r.1) r)
+  let ems := Counting.run n [] (rows.map fun r => Counting.Op.row (encCounting [Val.null]) r)
   sortLines ((ems.flatMap fun e => aggResults e.2).map resultLine)
+
+/-- the C16 claim on grouped results ("GROUP BY may reference joined columns"): every result row
+aggregates only rows whose joined group value is the reported one, no row twice, count = members -/
+def aggSpec (rows : List (List Val × Int)) (res : List (List Val × Nat × List Int)) : String :=
+  let nrows := normRows rows
+  let ids := res.flatMap fun r => r.2.2
+  if !(ids.eraseDups.length == ids.length) then "fail:row-in-two-results"
+  else if !(res.all fun r => r.2.1 == r.2.2.length && !r.2.2.isEmpty) then "fail:count-differs-from-members"
+  else if !(res.all fun r => r.2.2.all fun i => nrows.any fun x => x.2 == i && x.1 == r.1) then
+    "fail:row-grouped-under-a-foreign-joined-value"
+  else "ok"
 
 def run (c : Case) : CaseOut := Id.run do
   let mode := cfgGet c "mode" "enc"
@@ -91,6 +105,7 @@ def run (c : Case) : CaseOut := Id.run do
   let mut tbl : Tbl := []
   let mut amap : JoinSpec.AMap (List (KVal Nat)) Int := JoinSpec.empty
   let mut encs : List (List (KVal Nat) × List String) := []
+  let mut upserts : List (Int × List (KVal Nat)) := []
   let mut aggRowsM : List (List Val × Int) := []
   let mut aggRowsS : List (List Val × Int) := []
   let tag := fun (t : String) (ts : List String) => if ts.contains t then ts else t :: ts
@@ -106,6 +121,7 @@ def run (c : Case) : CaseOut := Id.run do
       match parseKey vs, pid.toInt? with
       | some k, some p =>
         if (JoinSpec.step (JoinSpec.keyEq nf) amap (.emit k) k).isSome then tags := tag "upsert-replaces" tags
+        upserts := (p, k) :: upserts
         tbl := upsert tbl (encodeKey nf k) p
         amap := JoinSpec.step (JoinSpec.keyEq nf) amap (.upsert k p)
         obs := obs ++ [[]]
@@ -124,6 +140,7 @@ def run (c : Case) : CaseOut := Id.run do
         let line := fun (r : Option Int) => match r with | some p => ["hit", toString p] | none => ["miss"]
         obs := obs ++ [[line (lookup tbl (encodeKey nf k))]]
         tags := tag (if (amap k).isSome then "lookup-hit" else "lookup-miss") tags
+        if (amap k).any fun p => upserts.any fun u => u.1 == p && u.2 != k then tags := tag "hit-across-numeric-types" tags
         if implObs != [line (amap k)] && spec == "ok" then spec := "fail:lookup-differs-from-map-by-key-equality"
       | none => obs := obs ++ [[["bad-op"]]]
     | "emit" :: id :: vs =>
@@ -132,6 +149,7 @@ def run (c : Case) : CaseOut := Id.run do
         let m := enrich jt (lookup tbl (encodeKey nf k))
         let s := JoinSpec.expected jt (amap k)
         tags := tag (match s with | .dropped => "inner-drop" | .kept none => "left-null" | .kept (some _) => "match") tags
+        if (amap k).any fun p => upserts.any fun u => u.1 == p && u.2 != k then tags := tag "hit-across-numeric-types" tags
         if mode == "sqlagg" then
           obs := obs ++ [[]]
           match grpOf m with
@@ -147,7 +165,11 @@ def run (c : Case) : CaseOut := Id.run do
       | _, _ => obs := obs ++ [[["bad-op"]]]
     | ["flush"] =>
       obs := obs ++ [aggLines n aggRowsM]
-      if implObs != aggLines n aggRowsS && spec == "ok" then spec := "fail:grouped-join-results-differ"
+      match implObs.mapM parseResult with
+      | none => if spec == "ok" then spec := "fail:unreadable-result"
+      | some ires =>
+        let v := aggSpec aggRowsS ires
+        if v != "ok" && spec == "ok" then spec := v
     | _ => obs := obs ++ [[["bad-op"]]]
   -- encoder oracle on the implementation's keys
   for (k, o) in encs do
